@@ -416,7 +416,7 @@ def node_stream(ctx, res, cases, ntrees):
             by_tree.setdefault(json.dumps(c['tree'], sort_keys=True), []).append(c)
     keys = sorted(by_tree)
     ctx.rng.shuffle(keys)
-    reqs, meta = [], []
+    reqs, meta, histories = [], [], []
     for key in keys[:ntrees]:
         group = by_tree[key]
         try:
@@ -425,8 +425,12 @@ def node_stream(ctx, res, cases, ntrees):
             res.count('node.refused:' + type(e).__name__)
             continue
         res.count('node.tree.root=' + group[0]['tree']['t'])
+        held0, events = cn.held, []
         for c in group:
             req, out = eval_change(c, cn)
+            if c['prev'] is not None:
+                events.append({'u': c['prev']})
+            events.append({'c': c['cand']})
             if req is None:
                 continue
             nc = {'tree': c['tree'], 'mode': 'node', 'cand': c['cand'], 'prev': req['held']}
@@ -436,6 +440,19 @@ def node_stream(ctx, res, cases, ntrees):
                 req, out = eval_do(c, cn)
                 reqs.append(req)
                 meta.append(({'tree': c['tree'], 'mode': 'do', 'cand': c['cand'], 'prev': None}, out))
+        # the whole history of this parameter (driver updates and change requests, accepted or refused) against `holdRun`
+        if dtcodec.encodable(held0) and dtcodec.encodable(cn.held):
+            histories.append(({'tree': cn.tree, 'held0': dtcodec.py_to_json(held0), 'events': events},
+                              dtcodec.py_to_json(cn.held)))
+    hreqs = [{'p': 'C01', 'k': 'history', 'dt': h['tree'], 'held0': h['held0'], 'events': h['events']} for h, _ in histories]
+    for (h, final), ans in zip(histories, ctx.driver.batch(hreqs)):
+        if 'driver_error' in ans:
+            raise RuntimeError(f'driver error {ans} on a history of {len(h["events"])} events')
+        res.evaluations += 1
+        res.count('stream=node(history of one parameter)')
+        res.count('node.history.events', len(h['events']))
+        if ans['wf'] and ctx.model_ok and dtcodec.canon(ans['held']) != dtcodec.canon(final):
+            res.disagreements.append({'case': dict(h, mode='history'), 'model': {'held': ans['held']}, 'impl': {'held': final}})
     for (nc, out), ans in zip(meta, ctx.driver.batch(reqs)):
         if 'driver_error' in ans:
             raise RuntimeError(f'driver error {ans} on {json.dumps(nc)[:400]}')
@@ -765,6 +782,18 @@ def run(ctx):
 
 
 def replay(ctx, rp):
+    if 'case' not in rp:
+        # a `no-failing-input-found` file: the disagreeing cases (and / or the proof status) of that run
+        rc = 0
+        for n in rp.get('proof_status') or []:
+            print('proof    :', str(n)[-600:])
+        for d in rp.get('correspondence_disagreements') or []:
+            if 'law' in d['case']:
+                print('law      :', d['case'], '(re-tested in every run)')
+                continue
+            print('--- disagreeing case')
+            rc |= replay(ctx, {'case': d['case'], 'kind': 'no-failing-input-found'})
+        return 1 if rc or rp.get('theorems_not_checked') else 0
     case = rp['case']
     if case['mode'] == 'oddprev':
         dt = dtcodec.tree_to_dt(case['tree'])
@@ -782,6 +811,24 @@ def replay(ctx, rp):
         print('candidate:', repr(cand))
         print('impl     :', outs)
         return 1 if any(k == 'other' for k, _ in outs) else 0
+    if case['mode'] == 'history':
+        cn = ChangeNode(dtcodec.tree_to_dt(case['tree']))
+        cn.hold(dtcodec.json_to_py(case['held0']))
+        held0 = dtcodec.py_to_json(cn.held)
+        for ev in case['events']:
+            if 'u' in ev:
+                cn.hold(dtcodec.json_to_py(ev['u']))
+            else:
+                cn.change(json.loads(json.dumps(dtcodec.json_to_py(ev['c']))))
+        ans = ctx.driver.batch([{'p': 'C01', 'k': 'history', 'dt': cn.tree, 'held0': held0, 'events': case['events']}])[0]
+        final = dtcodec.py_to_json(cn.held)
+        print('datatype :', repr(cn.dt))
+        print('events   :', len(case['events']))
+        print('impl held:', json.dumps(final))
+        print('model    :', json.dumps(ans.get('held')))
+        agree = dtcodec.canon(ans['held']) == dtcodec.canon(final)
+        print('model == implementation:', agree)
+        return 0 if agree else 1
     if case['mode'] in ('node', 'do'):
         req, out = eval_change(case) if case['mode'] == 'node' else eval_do(case)
         ans = ctx.driver.batch([req])[0]
